@@ -4,7 +4,7 @@
 //
 //   case  ::= (case (local CAP*) (remote CAP*) MSG)
 //   CAP   ::= (mp AFI SAFI) | rr | (enh (AFI SAFI NHAFI)*) | em | (gr FLAGS TIME (AFI SAFI F)*) | (as4 N)
-//           | (ap (AFI SAFI MODE)*) | err | (llgr (AFI SAFI FLAGS TIME)*) | (fqdn xHOST xDOMAIN) | (unk CODE xBIN)
+//           | (ap (AFI SAFI MODE)*) | err | (llgr (AFI SAFI FLAGS TIME)*) | (fqdn xHOST xDOMAIN) | (unk CODE DATA)
 //   MSG   ::= (open ASN HOLD RID CAP*) | (reach AFI SAFI NH (attrs ATTR*) (entries ENTRY*))
 //           | (unreach AFI SAFI (entries ENTRY*)) | (eor AFI SAFI) | (notif CODE SUB xDATA) | keepalive | (rr AFI SAFI)
 //   NH    ::= none | (v4 N) | (v6 x16) | (v6ll x16 x16)
@@ -118,7 +118,7 @@ fn cap_of(t: &Term) -> Option<Capability> {
             hostname: ascii(&a[0].as_bytes()?)?,
             domain: ascii(&a[1].as_bytes()?)?,
         }),
-        "unk" if a.len() == 2 => Some(Capability::Unknown { code: u(&a[0], 255)? as u8, bin: a[1].as_bytes()? }),
+        "unk" if a.len() == 2 => Some(Capability::Unknown { code: u(&a[0], 255)? as u8, bin: data_of(&a[1])? }),
         _ => None,
     }
 }
@@ -723,6 +723,10 @@ fn run_case(line: &str) -> String {
                     Ok(it) => it.collect(),
                     Err(_) => return false,
                 };
+                if ms.is_empty() {
+                    // a decoded UPDATE that carries no route yields no message: nothing to re-encode
+                    continue;
+                }
                 let mut enc2 = PeerCodec::negotiate(&case.local, &case.remote);
                 let mut b2 = BytesMut::new();
                 for m in &ms {
